@@ -1,5 +1,9 @@
 """C02 — signal quality never improves along a path; passive elements leave it unchanged."""
+import numpy as np
+
+from harness.common import *      # noqa
 from harness import common, elems
+from symx.core import approx
 from harness.c01 import h_mutator     # noqa (re-exported for the driver)
 
 setup = common.setup
@@ -14,6 +18,44 @@ META = dict(
                  'one step from an arbitrary valid state stands for paths of any length (composition checked at path level in C16 harness)'],
     stubs=[],
 )
+
+
+def h_nli_sparse(ctx, method, computed):
+    """GGN methods with NLI computed on a subset of the channels only (computed_channels): the real compute_nli spreads the
+    result over the other channels; for ARBITRARY non-negative efficiencies of the computed channels (environment stub for
+    the numerical GGN integrals) and arbitrary powers, no channel - inside or outside the computed range - receives a
+    negative NLI, so a fibre never improves SNR_NLI"""
+    import gnpy.core.science_utils as su
+    from gnpy.core.parameters import SimParams
+    from symx.npshim import SymInterp1d
+    symbolic_ctors(ctx)
+    k = 4
+    SimParams.set_params({'nli_params': {'method': method, 'computed_channels': list(computed)}, 'raman_params': {'flag': False}})
+    si = make_si(ctx, k, pmax=1e-2)
+    eta = np.empty((len(computed), k), dtype=object if ctx.mode == 'sym' else float)
+    for a in range(len(computed)):
+        for b in range(k):
+            eta[a, b] = ctx.real(f'eta_{a}_{b}', lo=0, hi=1e4)
+    fn = '_ggn_approx' if method == 'ggn_approx' else '_ggn_spectrally_separated'
+    orig, orig_i = getattr(su.NliSolver, fn), su.__dict__.get('interp1d')
+    setattr(su.NliSolver, fn, staticmethod(lambda cut_indices, spectral_info, fiber, srs, *a, **kw: eta))
+    su.interp1d = SymInterp1d
+    try:
+        nli = su.NliSolver.compute_nli(si, None, None)
+    finally:
+        setattr(su.NliSolver, fn, orig)
+        if orig_i is not None:
+            su.interp1d = orig_i
+        elems.set_sim_params()
+    ctx.prove('one NLI value per channel', len(nli) == k)
+    for i in range(k):
+        ctx.prove(f'nli_sparse:{method}:nli_not_negative[{i}]', ge(nli[i], 0), info=dict(method=method, computed=list(computed), channel=i + 1))
+    for a, ch in enumerate(computed):
+        want = 0
+        for b in range(k):
+            want = want + eta[a, b] * si._pch[ch - 1] * si._pch[b] ** 2
+        ctx.prove(f'nli_sparse:{method}:computed_channel_gets_its_own_sum[{ch}]', approx(nli[ch - 1], want, 1e-9),
+                  info=dict(method=method, computed=list(computed)))
 
 
 def jobs(tier):
@@ -36,4 +78,8 @@ def jobs(tier):
         for k in ks[1:]:
             js.append(dict(name=f'H2:edfa:{var}:k{k}', module='harness.elems', fn='h_edfa',
                            params=dict(variety=var, k=k, props=P, oob=(k == 2)), cost=4 ** k))
+    for method in ('ggn_approx', 'ggn_spectrally_separated'):
+        for comp in ((2, 3), (1, 4), (2,), (1, 2, 3, 4)):
+            js.append(dict(name=f'H2:nli_sparse_computed_channels:{method}:{"+".join(map(str, comp))}', fn='h_nli_sparse',
+                           params=dict(method=method, computed=comp), cost=20))
     return js
